@@ -16,7 +16,7 @@ from bctmc.tally import Tally
 PROPERTY = 'C12'
 RULE = ('Floyd: the structured 7-10 node family of bctmc/named.py (binary, lengths {1,2},{1,2,3}, near-tie) and all 3-node digraphs / 4-node graphs over lengths {1,2,3}, all binary 4-node digraphs, dyadic weights '
         '{1,1/2,1/4} with inv and log, the exact near-tie alphabets {1,2,2+2^-20} and {1,2^20,2^20+1}, and the float near-tie alphabets {0.1,0.2,0.3} / {0.2,0.4,0.6} (0.1+0.2 != 0.3 in '
-        'binary floating point), every ordered (s,t) (thorough: lengths {1,2} on all 4-node digraphs and 5-node graphs); '
+        'binary floating point), lengths {1,2} on all 59 049 5-node graphs, every ordered (s,t) (thorough: lengths {1,2} on all 4-node digraphs); '
         'navigation: binary L on 4 nodes x all symmetric D over {1,2,3}, L over {0,1,2} x D over {1,2}, max_hops in '
         '{None,1,2,3} (thorough: L over {0,1,2} x all D over {1,2,3}; 5-node binary L x D over {1,2}); non-trivial = '
         'Floyd: graph with an unreachable pair and a tie between different hop counts, navigation: instance with both a '
@@ -39,7 +39,7 @@ FLOYD = {
     'near2_und4': (False, 4, (0, 0.2, 0.4, 0.6), None, 'q'),
     'near4_und5': (False, 5, (0, 0.2, 0.4), None, 'q'),
     'len_dir4': (True, 4, (0, 1, 2), None, 't'),
-    'len_und5': (False, 5, (0, 1, 2), None, 't'),
+    'len_und5': (False, 5, (0, 1, 2), None, 'q'),
     'near_und5': (False, 5, (0, 0.1, 0.2), None, 't'),
     'near3_und5': (False, 5, (0, 0.1, 0.3), None, 't'),
 }
